@@ -111,6 +111,16 @@ def impl_op(c, op):
                     raise BlockAbort()
             return tuple(out)
         return call(run_block)
+    if name == 'check':
+        # ('check', fix): kinds of the warnings reported
+        def run_check():
+            import warnings as _w
+            with _w.catch_warnings():
+                _w.simplefilter('always')
+                return sorted({str(x.message).split(':')[0]
+                               for x in c.check(fix=a[0], retry=True)
+                               if 'empty directory' not in str(x.message)})
+        return call(run_check)
     if name == 'open':
         # another handle is opened on the directory (all of __init__),
         # used once and closed
@@ -217,6 +227,8 @@ def model_op(s, op):
             return Raises('BlockAbort')
         s.__dict__.update(trial.__dict__)
         return tuple(out)
+    if name == 'check':
+        return []          # an undamaged cache: nothing to report
     if name == 'open':
         return s.length()
     if name == 'nested':
@@ -406,10 +418,11 @@ class CacheWorld(World):
                 lines.append('    print(%r, "->", %s)' % (src, src))
         return '\n'.join(lines)
 
-    def __init__(self, settings=None, track_stats=True):
+    def __init__(self, settings=None, track_stats=True, prefix=()):
         import diskcache
         super().__init__()
         self.settings = dict(settings or {})
+        self.prefix = tuple(prefix)
         tmpl = template('cache', self.settings,
                         lambda p: diskcache.Cache(p, **self.settings).close())
         shutil.copytree(tmpl, self.dir)
@@ -424,6 +437,13 @@ class CacheWorld(World):
             clock=lambda: ENV.now,
             pickle_protocol=s.get('disk_pickle_protocol', 5),
         )
+        for op in self.prefix:     # seeded non-initial start state
+            self.apply_fast(op)
+
+    def replay_args(self):
+        if self.prefix:
+            return [self.settings, True, [list(op) for op in self.prefix]]
+        return None
 
     def config(self):
         return self.settings
